@@ -554,6 +554,49 @@ def gen_indpb(rng):
     return rng.random()
 
 
+def gen_stress(rng):
+    """One rounding-stress case (arguments of do_case) for the two bounded operators."""
+    n = rng.choice([1, 1, 2, 3])
+    low, up, lows, ups = gen_bounds(rng, n)
+    eta = rng.choice([1000, 1000.0, 500.0, 100.0, 20, 30.0, 1e-9, 0, 0.5, 3.0])
+    near = [ONE_MINUS, 1.0 - 2.0 ** -52, 1.0 - 1e-12, 1.0 - 1e-9, 0.999, 0.0, 2.0 ** -53, 1e-12, 0.5,
+            math.nextafter(0.5, 0.0), math.nextafter(0.5, 1.0)]
+    if rng.random() < 0.5:
+        g1, g2 = [], []
+        for i in range(n):
+            lo, hi = float(lows[i]), float(ups[i])
+            a = rng.choice([lo, hi, gen_gene(rng, lo, hi)])
+            b = rng.choice([lo, hi, gen_gene(rng, lo, hi), gen_gene(rng, lo, hi)])
+            g1.append(a)
+            g2.append(b)
+        us = []
+        for i in range(n):
+            us += [rng.choice([0.0, 0.25, 0.5]), rng.choice(near) if rng.random() < 0.7 else rng.random(), rng.random()]
+        return ("sbxb", [eta, low, up], [(g1, None), (g2, None)], us, [], True,
+                "CSbxB %s %s %s %s %s" % (cfloat(eta), cbnd(low), cbnd(up), cind(0, g1, None), cind(1, g2, None)))
+    g = [rng.choice([float(lows[i]), float(ups[i]), gen_gene(rng, lows[i], ups[i])]) for i in range(n)]
+    us = []
+    for i in range(n):
+        us += [rng.random(), rng.choice(near) if rng.random() < 0.7 else rng.random()]
+    return ("poly", [eta, low, up, 1.0], [(g, None)], us, [], True,
+            "CPoly %s %s %s %s %s" % (cfloat(eta), cbnd(low), cbnd(up), cfloat(1.0), cind(0, g, None)))
+
+
+def search(run):
+    """Extra counterexample search, run only when an obligation or the correspondence broke: many
+    rounding-stress and ordinary cases of the bounded operators, judged by the oracle alone."""
+    rng = run.rng
+    budget = run.scale(40000, 400000)
+    for _ in range(budget):
+        op, params, inds, us, zs, in_domain, _ctor = gen_stress(rng)
+        case = {"op": op, "params": params, "inds": inds, "us": us, "zs": zs, "in_domain": True, "from": "search"}
+        obs = execute(op, params, inds, us, zs, lf=False)
+        bad = oracle(run, case, obs)
+        if bad:
+            run.oracle_violation(bad[0], case, observed={k: repr(v)[:600] for k, v in obs.items() if k != "log"})
+            return
+
+
 # ----------------------------------------------------------------------------------------------
 def main(run):
     run.rule = ("seeded random cases per operator (7 operators): 1..12 genes; scalar / per-gene / int-valued bounds of width "
@@ -614,6 +657,13 @@ def main(run):
             return
         if plain["exc"] is not None and plain["exc"].startswith("Other:"):
             return          # already reported by the oracle; no Coq term can express it
+        if plain["exc"] is None and not all(is_finite_real(x) or (isinstance(x, float))
+                                            for g in plain["out_genes"] + plain["out_strat"] for x in g):
+            # a complex (or non-numeric) gene was written: reported by the oracle when in domain; no float term exists
+            if not in_domain:
+                run.notes.append("out-of-domain case produced a non-real gene (skipped in correspondence)")
+            stats[op + ":nonreal"] = stats.get(op + ":nonreal", 0) + 1
+            return
         evs = clist([cev(e) for e in logged["log"]])
         terms.append("%s %s %s" % (ctor_args, evs, coutcome(plain)))
         cases.append(case)
@@ -666,6 +716,13 @@ def main(run):
         do_case("sbxb", [eta, low, up], [(g1, None), (g2, None)], us, [], True,
                 "CSbxB %s %s %s %s %s" % (cfloat(eta), cbnd(low), cbnd(up), cind(0, g1, None), cind(1, g2, None)))
 
+    # ---- cxSimulatedBinaryBounded / mutPolynomialBounded: rounding stress -------------------------
+    # a parent exactly on a bound, rand next to 0 / 1 and a large eta drive beta_q (delta_q) to the value for
+    # which the unclipped child equals the bound in exact arithmetic: only the final clip keeps the float inside
+    for _ in range(N):
+        args = gen_stress(rng)
+        do_case(*args)
+
     # ---- mutPolynomialBounded -----------------------------------------------------------------
     for _ in range(2 * N):
         n = gen_len(rng)
@@ -709,8 +766,8 @@ def main(run):
                 "CESLog %s %s %s" % (cfloat(c), cfloat(indpb), cind(0, g, st)))
 
     # ---- error branches and inputs outside the statement's domain: correspondence only ---------------
-    for _ in range(run.scale(60, 600)):
-        kind = rng.choice(["short-bounds", "low==up", "outside", "exp-overflow", "short-strategy", "short-mu", "eta=-1"])
+    for _ in range(run.scale(120, 1200)):
+        kind = rng.choice(["short-bounds", "low==up", "outside", "outside", "exp-overflow", "short-strategy", "short-mu", "eta=-1"])
         n = rng.randint(1, 5)
         if kind == "short-bounds":
             n = rng.randint(2, 5)
@@ -733,15 +790,29 @@ def main(run):
             do_case("poly", [eta, b, b, 1.0], [(g, None)], [gen_u(rng) for _ in range(2 * n)], [], False,
                     "CPoly %s %s %s %s %s" % (cfloat(eta), cbnd(b), cbnd(b), cfloat(1.0), cind(0, g, None)))
         elif kind == "outside":
-            eta = rng.choice([0.5, 1.0, 2.5, 20.0, 0.0])
-            g1 = [rng.uniform(-1.0, 2.0) for _ in range(n)]
-            g2 = [rng.uniform(-1.0, 2.0) for _ in range(n)]
-            if rng.random() < 0.5:
-                do_case("sbxb", [eta, 0.0, 1.0], [(g1, None), (g2, None)], [gen_u(rng, 0.8) for _ in range(3 * n)], [], False,
+            # genes outside [0, 1]: a negative power base with a fractional exponent gives a complex number, which
+            # reaches a comparison (TypeError); with an integral exponent Python returns a float
+            eta = rng.choice([0.5, 1.0, 2.5, 20.0, 0.0, 0.25, 3.0])
+            sub = rng.random()
+            if sub < 0.35:
+                # polynomial: x > up and rand < 0.5  ->  xy = 1 - delta_1 < 0
+                g1 = [rng.uniform(1.0, 2.0) if rng.random() < 0.7 else rng.uniform(-1.0, 2.0) for _ in range(n)]
+                us = []
+                for _i in range(n):
+                    us += [gen_u(rng), rng.random() * 0.5 if rng.random() < 0.7 else gen_u(rng)]
+                do_case("poly", [eta, 0.0, 1.0, 1.0], [(g1, None)], us, [], False,
+                        "CPoly %s %s %s %s %s" % (cfloat(eta), cbnd(0.0), cbnd(1.0), cfloat(1.0), cind(0, g1, None)))
+            elif sub < 0.7:
+                # bounded SBX: smaller parent far below low -> beta = 1 + 2(x1-xl)/(x2-x1) < 0
+                g1 = [rng.uniform(-3.0, -1.0) if rng.random() < 0.7 else rng.uniform(-1.0, 2.0) for _ in range(n)]
+                g2 = [rng.uniform(0.0, 1.0) for _ in range(n)]
+                do_case("sbxb", [eta, 0.0, 1.0], [(g1, None), (g2, None)], [gen_u(rng, 0.9) for _ in range(3 * n)], [], False,
                         "CSbxB %s %s %s %s %s" % (cfloat(eta), cbnd(0.0), cbnd(1.0), cind(0, g1, None), cind(1, g2, None)))
             else:
-                do_case("poly", [eta, 0.0, 1.0, 1.0], [(g1, None)], [gen_u(rng) for _ in range(2 * n)], [], False,
-                        "CPoly %s %s %s %s %s" % (cfloat(eta), cbnd(0.0), cbnd(1.0), cfloat(1.0), cind(0, g1, None)))
+                g1 = [rng.uniform(-1.0, 2.0) for _ in range(n)]
+                g2 = [rng.uniform(-1.0, 2.0) for _ in range(n)]
+                do_case("sbxb", [eta, 0.0, 1.0], [(g1, None), (g2, None)], [gen_u(rng, 0.8) for _ in range(3 * n)], [], False,
+                        "CSbxB %s %s %s %s %s" % (cfloat(eta), cbnd(0.0), cbnd(1.0), cind(0, g1, None), cind(1, g2, None)))
         elif kind == "exp-overflow":
             g = gen_free_genes(rng, n)
             st = [1.0] * n
@@ -767,5 +838,6 @@ def main(run):
             do_case("sbx", [-1.0], [(g1, None), (g2, None)], [gen_u(rng) for _ in range(n)], [], False,
                     "CSbx %s %s %s" % (cfloat(-1.0), cind(0, g1, None), cind(1, g2, None)))
 
+    run.search_fn = search
     run.extra_cov["per_operator"] = stats
     run.correspond("all", "C10", terms, cases, shard=300, requires=["From Coq Require Import PrimFloat."])
